@@ -212,7 +212,7 @@ def main(argv):
         if rp.get("op") in ("IsUTF8", "iterator") and rp.get("input_hex") is not None:
             U.insert(0, bytes.fromhex(rp["input_hex"]))
             I.insert(0, bytes.fromhex(rp["input_hex"]))
-    lines = ["D " + hexs(b) for b in D] + ["U " + hexs(b) for b in U] + ["I " + hexs(b) for b in I]
+    lines = ["C"] + ["D " + hexs(b) for b in D] + ["U " + hexs(b) for b in U] + ["I " + hexs(b) for b in I]
     for b in D:
         r = py_first(b[:4])
         c.count(("D", b), bucket="decode/buf%d/%s" % (min(len(b), 5), "bad" if r is None else "len%d" % r[1]))
@@ -282,6 +282,8 @@ def main(argv):
     if len(out) != len(lines) + len(mism):
         c.broken.append("harness hx_utf8 died: rc=%s %s" % (rc, err[-300:]))
     else:
+        out = out[1:]          # the constants line "C" is compared model-vs-compiled code only
+        lines = lines[1:]
         nD, nU = len(D), len(U)
         for b, o in list(zip(D, out[:nD])) + list(zip(mism, out[len(lines):])):
             r = py_first(b[:4])
